@@ -7,6 +7,7 @@ from . import rules_effect as RE
 from . import rules_extrema as RX
 from . import rules_skipnan as RK
 from . import rules_hist as RH
+from . import rules_terms as RT
 from .facts import AnchorMissing
 
 TRUSTED = [
@@ -256,4 +257,51 @@ def c13(ctx):
     )
 
 
-PROPS = {"C11": c11, "C13": c13, "C14": c14, "C05": c05, "C20": c20, "C16": c16, "C17": c17, "C04": c04, "C03": c03}
+def _roots_in(prog, *mods):
+    return [b for b in all_roots(prog) if any(m in b.key for m in mods)]
+
+
+def c09(ctx):
+    prog = ctx.prog("dev")
+    roots = _roots_in(prog, "deviation::DeviationExt")
+    pairs = RL.rule_r9(ctx, prog, roots)
+    ctx.floor("R9", len(pairs), 4, "Zip pairings in deviation.rs")
+    RL.rule_r1(ctx, prog, scope=lambda b: "deviation::" in b.key)
+    only = {k for k in RG.TABLE if k[0] == "DeviationExt"}
+    n, e = RG.rule_r6(ctx, prog, only=only)
+    ctx.floor("R6", n, 10, "deviation routines in the decision table")
+    RT.rule_c09_terms(ctx, prog)
+    return dict(
+        level="other",
+        explanation="(R9/R1) the two operands of every measure are paired by logical index: Zip::from(self).and(other) with undisturbed "
+                    "producers, no layout-observing API; (R6) guards and delegation roles; (R19) the kernel each measure accumulates is "
+                    "extracted from the closure's MIR and compared by a CAS with the definition: Σ(a−b)², Σ|a−b|, running max of |a−b| "
+                    "from 0 with strict >, +1 exactly on a == b, all starting at zero; symmetry under a↔b and value 0 at b = a are "
+                    "checked on the extracted terms; l2/mae/mse/rmse/psnr/count_neq are the documented functions (sqrt, /len(self), "
+                    "10·log10(maxv²/mse), len − count_eq) of the primitives. Integer exactness follows from the term identity (no overflow "
+                    "assumed); float roundoff bounds are not decided.",
+    )
+
+
+def c10(ctx):
+    prog = ctx.prog("dev")
+    roots = _roots_in(prog, "entropy::EntropyExt")
+    pairs = RL.rule_r9(ctx, prog, roots)
+    ctx.floor("R9", len(pairs), 4, "Zip::and sites in entropy.rs")
+    RL.rule_r1(ctx, prog, scope=lambda b: "entropy::" in b.key)
+    only = {k for k in RG.TABLE if k[0] == "EntropyExt"}
+    n, e = RG.rule_r6(ctx, prog, only=only)
+    ctx.floor("R6", n, 3, "entropy routines in the decision table")
+    RT.rule_c10(ctx, prog)
+    ctx.floor("R10", len([o for o in ctx.obs if o["rule"] == "R10"]), 6, "zero-branch obligations")
+    return dict(
+        level="other",
+        explanation="(R10) in the three kernels the term is `if x|p == 0 {0} else {…}` with every ln dominated by the non-zero edge, so a zero "
+                    "entry contributes exactly zero; (R19) the non-zero branches extracted from MIR equal x·ln x, p·ln q, p·ln(q/p) (CAS), the "
+                    "result is the negated plain sum, and the identities KL(p,p) = 0 and H(p,q) = H(p) + KL(p,q) hold termwise on the "
+                    "extracted terms; (R9) operands paired by logical index in the order (temp, self, q) with temp fresh of self's shape; "
+                    "(R6) guards. NaN propagation follows from the plain sum. Not decided: KL ≥ 0, H ≤ ln n, roundoff.",
+    )
+
+
+PROPS = {"C09": c09, "C10": c10, "C11": c11, "C13": c13, "C14": c14, "C05": c05, "C20": c20, "C16": c16, "C17": c17, "C04": c04, "C03": c03}
